@@ -740,6 +740,67 @@ def check_pure_printers(ctx, classes):
                'none', nontrivial=False)
 
 
+def check_registry(ctx):
+    """Which class a leaf text parses to is a function of the text: the
+    table of extension checks the leaf parser consults is computed once and
+    remembered.  A path that answers with a table it does not remember (an
+    empty one after a failed scan, say) makes the same text parse to
+    different classes at different times: two rules that print identically
+    then decide differently."""
+    prog = ctx.prog
+    f = prog.func(CHECKS + '.get_extensions')
+    W = ctx.where(f.module, f.node)
+    memo_deco = any((prog.resolve(f.module, d.func if isinstance(
+        d, ast.Call) else d) or '').endswith(('functools.lru_cache',
+                                               'functools.cache'))
+        for d in f.node.decorator_list)
+    globs = [nm for n in ast.walk(f.node) if isinstance(n, ast.Global)
+             for nm in n.names]
+    if memo_deco and not globs:
+        ctx.ob('C15.REGISTRY', True, W, f.qual, 'extension table',
+               'memoised by functools')
+        return
+    if len(globs) != 1:
+        raise AnalysisError(
+            '%s keeps the table of extension checks in a way that is not '
+            'read (no single module-level cache name)' % f.qual)
+    g = globs[0]
+    from ..dte import inline_helpers
+    t = Table(prog, f, inline=inline_helpers(prog, modules={CHECKS},
+                                             classes=False), comps=False)
+    kept = set()
+    for n in ast.walk(f.node):
+        if isinstance(n, ast.Assign) and any(
+                isinstance(x, ast.Name) and x.id == g for x in n.targets):
+            kept.add(U(n.value))
+    bad = None
+    n_ret = 0
+    for p in t.paths:
+        if p.outcome.kind != 'return' or p.outcome.expr is None:
+            continue            # a failed scan that propagates decides
+            #                     nothing
+        n_ret += 1
+        e = t.expand(p.outcome.expr)
+        # what the cache name holds when the path returns
+        held = p.env.get(g) if isinstance(p.env, dict) else None
+        if U(e) == g and held is None:
+            continue
+        if held is not None and U(t.expand(held)) == U(e):
+            continue
+        bad = bad or (p, U(e)[:60])
+    ok = bad is None and n_ret > 0
+    ctx.ob('C15.REGISTRY', ok, '%s:%d' % (W.split(':')[0],
+                                          bad[0].outcome.line) if bad
+           else W, f.qual,
+           'extension table (%d return paths)' % n_ret if ok else
+           'return ' + bad[1],
+           'every answer is the remembered table `%s`' % g if ok else
+           'a path answers with `%s`, which is not the table remembered in '
+           '`%s` (path: %s): the classes leaf texts parse to can change '
+           'between two parses of the same text' % (
+               bad[1], g, bad[0].cond_text()[-160:]))
+
+
 def check(ctx):
     ctx.use(CHECKS, PARSER, POLICY)
     ctx.explain('C15: printer formats are extracted from every __str__ and '
@@ -782,6 +843,7 @@ def check(ctx):
     from . import c05
     ctx.borrow('C15.TOKENS', c05.check_quoted, only=['C05.QUOTED'])
     ctx.borrow('C15.TOKENS', c05.check_quoted_peel, only=['C05.QUOTED'])
+    check_registry(ctx)
     check_roundtrip(ctx, pr, tf, model, pred, opens, closes)
     # C15.LIST-ARITY: rules given in the old list form are parsed rules too;
     # their printed form is a fixed point only if the translator never
